@@ -46,6 +46,10 @@ func main() {
 		fmt.Fprintln(os.Stderr, "usage: c12 gen|exec|oracle|validate ...")
 		os.Exit(2)
 	}
+	// streams `known-<s>` hold the witnesses of known findings; they behave like stream <s>
+	if len(os.Args) > 2 {
+		os.Args[2] = strings.TrimPrefix(os.Args[2], "known-")
+	}
 	switch os.Args[1] {
 	case "gen":
 		seed, _ := strconv.ParseUint(os.Args[3], 10, 64)
